@@ -31,7 +31,7 @@ fn col_domain(c: &str, reduced: bool) -> Vec<(Option<String>, RVal)> {
     let text = |s: &str| (Some(format!("{:?}", s)), RVal::Text(s.to_string()));
     let full: Vec<(Option<String>, RVal)> = match c {
         "i" | "j" => vec![(None, RVal::Null), int(0), int(1), int(2), int(-1), int(i64::MAX), int(i64::MIN)],
-        "r" | "s" => vec![(None, RVal::Null), real("0.0", 0.0), real("1.0", 1.0), real("1.5", 1.5), real("2.0", 2.0), real("-1.0", -1.0), real("1e308", 1e308)],
+        "r" | "s" => vec![(None, RVal::Null), real("0.0", 0.0), real("1.0", 1.0), real("1.5", 1.5), real("2.0", 2.0), real("-1.0", -1.0), real("1e308", 1e308), real("-0.0", -0.0)],
         "t" | "u" => vec![(None, RVal::Null), text(""), text("a"), text("b"), text("A"), text("é"), text("10"), text("9")],
         "b" => vec![(None, RVal::Null), (Some("true".into()), RVal::Bool(true)), (Some("false".into()), RVal::Bool(false))],
         "a" => vec![(None, RVal::Null), (Some("[]".into()), RVal::Array(vec![])), (Some("[1,2]".into()), RVal::Array(vec![RVal::Int(1), RVal::Int(2)])), (Some("[null,3]".into()), RVal::Array(vec![RVal::Null, RVal::Int(3)]))],
@@ -43,7 +43,7 @@ fn col_domain(c: &str, reduced: bool) -> Vec<(Option<String>, RVal)> {
     if reduced {
         let keep: Vec<usize> = match c {
             "i" | "j" => vec![0, 2, 5, 6],
-            "r" | "s" => vec![0, 3, 6],
+            "r" | "s" => vec![0, 3, 6, 7],
             "t" | "u" => vec![0, 2, 6],
             _ => (0..full.len()).collect(),
         };
@@ -140,6 +140,19 @@ pub fn d1(ls: &[E], subset: &[E]) -> Vec<E> {
     let l = |i: i64| E::Lit(Lit::Int(i));
     for args in [vec![l(2021), l(1), l(2), l(3), l(4), l(5), l(6)], vec![l(2021), l(2), l(29), l(0), l(0), l(0), l(0)], vec![E::Col("i".into()), l(1), l(1), l(0), l(0), l(0), l(0)], vec![l(2020), l(2), l(29), l(23), l(59), l(59), l(999999)]] {
         out.push(E::Call("make_timestamp", args));
+    }
+    // CASE: only the conditions up to the first true one (and only the chosen result) are evaluated
+    let div0 = E::Bin(Bin::Eq, b(E::Bin(Bin::Div, b(E::Col("i".into())), b(l(0)))), b(l(1)));
+    let badfn = E::Bin(Bin::Gt, b(E::Call("length", vec![E::Col("i".into())])), b(l(0)));
+    let unknown = E::Bin(Bin::Eq, b(E::Col("nosuchcolumn".into())), b(l(1)));
+    for bad in [div0, badfn, unknown] {
+        let cond = E::Bin(Bin::Gt, b(E::Col("j".into())), b(l(0)));
+        out.push(E::Case(vec![(cond.clone(), l(1)), (bad.clone(), l(2))], b(l(3))));
+        out.push(E::Case(vec![(E::Col("b".into()), l(1)), (bad.clone(), l(2)), (cond.clone(), l(4))], b(l(3))));
+        out.push(E::Case(vec![(cond.clone(), l(1))], b(E::Bin(Bin::Div, b(l(1)), b(l(0))))));
+        out.push(E::Case(vec![(cond.clone(), E::Bin(Bin::Div, b(l(1)), b(l(0)))), (E::Lit(Lit::Bool(true)), l(2))], b(l(3))));
+        out.push(E::Bin(Bin::Or, b(cond.clone()), b(bad.clone())));
+        out.push(E::Bin(Bin::And, b(cond.clone()), b(bad.clone())));
     }
     out.push(E::Call("abs", vec![]));
     out.push(E::Call("abs", vec![l(1), l(2)]));
